@@ -16,7 +16,9 @@ generator oracles / fuel, given the installed copies meet it as `populate_source
 `C16_replace_multiple_generated_untouched`, `C16_replace_multiple_inv_genfree` (no proviso for generator-free
 replacement material), `C16_reachable_inv_whole` (all sequences with the whole function as a step).
 REFUTED: the unconditional `C16_FullStatement` (`C16_FullStatement_refuted`: a converter that is not inverse to its
-generator; `C16_whole_parse_repair_breaks_inv`: F31 through the whole function).
+generator; `C16_whole_parse_repair_breaks_inv`: F31 through the whole function;
+`C16_derive_param_writable_breaks_inv` / `C16_derive_current`: `derive_sources` re-creates a generator-defined parameter
+with writable output — finding C16/derive-sources-leaves-parameter-output-writable).
 Every `theorem` in this file is an obligation audited with `#print axioms`.
 -/
 import Proofs.Gen
@@ -351,8 +353,10 @@ def C16_FullStatement
 
 /-- the F31 witness through the whole function: `<g> := "abc"`, equality repair installs the parse of "xyz" on the
     (writable, same-symbol) node `<g>`; `populate_sources` marks the children read-only and adopts the text -/
-def exE : Env := ⟨{ gens := [("<g>", [])], rules := ["<start>", "<g>"] }, fun _ v => some [.leaf v false],
-  fun _ _ _ => some [97, 98, 99]⟩
+def exE : Env where
+  S := { gens := [("<g>", [])], rules := ["<start>", "<g>"] }
+  parse := fun _ v => some [.leaf v false]
+  gen := fun _ _ _ => some [97, 98, 99]
 def exRepairParsed : GTree := .node "<g>" false [.leaf [120, 121, 122] false] []
 
 theorem C16_whole_parse_repair_breaks_inv :
@@ -364,7 +368,10 @@ theorem C16_whole_parse_repair_breaks_inv :
 
 /-- `<g> := f(<a>)` with a converter `<a> := h(<g>)` that is not an inverse of `f` (f gives "x", h gives "q") -/
 def wS : Spec := { gens := [("<g>", ["<a>"]), ("<a>", ["<g>"])], rules := ["<start>", "<g>", "<a>"] }
-def wE : Env := ⟨wS, fun _ v => some [.leaf v false], fun _ s _ => if s == "<a>" then some [113] else some [120]⟩
+def wE : Env where
+  S := wS
+  parse := fun _ v => some [.leaf v false]
+  gen := fun _ s _ => if s == "<a>" then some [113] else some [120]
 /-- `<g>` = "x", generated from the recorded argument `<a>` = "p" -/
 def wG : GTree := .node "<g>" false [.leaf [120] true] [.node "<a>" false [.leaf [112] false] []]
 def wT : GTree := .node "<start>" false [wG, .leaf [45] false] []
@@ -398,13 +405,47 @@ theorem C16_FullStatement_refuted : ¬ C16_FullStatement replaceTop := by
     rw [hb] at this
     simp at this
 
+/-- `<m> := up(<body>)` whose parameter is itself generator-defined, `<body> ::= <l>+ := "a"` -/
+def pS : Spec := { gens := [("<m>", ["<body>"]), ("<body>", [])], rules := ["<start>", "<m>", "<body>", "<l>"] }
+def pE (mark : Bool) : Env where
+  S := pS
+  parse := fun s v => if s == "<body>" then some [.node "<l>" false [.leaf v false] []] else some [.leaf v false]
+  gen := fun _ s _ => if s == "<body>" then some [97] else some [65]
+  markParam := mark
+def pM : GTree := .node "<m>" false [.leaf [65] true]
+  [.node "<body>" false [.node "<l>" true [.leaf [97] true] []] []]
+def pT : GTree := .node "<start>" false [pM, .leaf [46] false] []
+def pLog : Log := [⟨"<m>", [[97]], [65]⟩, ⟨"<body>", [], [97]⟩]
+
+/-- **`derive_sources` re-creates a generator-defined parameter with writable output** (finding
+    C16/derive-sources-leaves-parameter-output-writable): crossover of `<m>` (onto itself); `populate_sources` →
+    `derive_sources` runs `<body>`'s generator for the recorded argument and leaves its children writable — the
+    invariant fails at the source (verdict 2); with the marking that `NonTerminalNode.fuzz` applies, it holds.
+    (Replayed on the implementation by `harness/props/c16.py`, case `witness:param_output_writable`.) -/
+theorem C16_derive_param_writable_breaks_inv :
+    genInvB pS pLog [] pT = true ∧ srcOKB pS [] pT = true ∧
+    (match replaceTop (pE false) [([0], pM)] 50 pT pLog with
+     | .ok o => genInvB pS o.log [] o.tree
+     | .error _ => true) = false ∧
+    (match replaceTop (pE true) [([0], pM)] 50 pT pLog with
+     | .ok o => genInvB pS o.log [] o.tree && srcOKB pS [] o.tree
+     | .error _ => false) = true := by decide +kernel
+
+/-- what that means for the source as it is now (`Generated.deriveMarksParamReadOnly`) -/
+theorem C16_derive_current :
+    (match replaceTop (pE Generated.deriveMarksParamReadOnly) [([0], pM)] 50 pT pLog with
+     | .ok o => genInvB pS o.log [] o.tree
+     | .error _ => false) = Generated.deriveMarksParamReadOnly := by decide +kernel
+
 /-! ### the cascade, on a concrete run (non-vacuity of `C16_replace_multiple_inv`) -/
 
 /-- `<a> := up(<b>)`, `<b> := rev(<c>)`, `<c>` plain: sources of sources -/
 def cS : Spec := { gens := [("<a>", ["<b>"]), ("<b>", ["<c>"])], rules := ["<start>", "<a>", "<b>", "<c>"] }
 /-- the oracle: the first call (`<b>` on "ba") returns "ab", the second (`<a>` on "ab") returns "AB" -/
-def cE : Env := ⟨cS, fun _ v => some [.leaf v false],
-  fun n _ _ => if n == 2 then some [97, 98] else some [65, 66]⟩
+def cE : Env where
+  S := cS
+  parse := fun _ v => some [.leaf v false]
+  gen := fun n _ _ => if n == 2 then some [97, 98] else some [65, 66]
 def cC : GTree := .node "<c>" false [.leaf [99] false] []
 def cB : GTree := .node "<b>" false [.leaf [99] true] [cC]
 def cA : GTree := .node "<a>" false [.leaf [67] true] [cB]
@@ -472,8 +513,9 @@ theorem C16_reachable_inv_whole (E : Env) (hp : ParseFits E.parse) (log : Log) (
 
 * the proviso of `C16_replace_multiple_inv` for replacement material that *contains generator-defined symbols*:
   whether `populate_sources` → `derive_sources` leaves an installed copy in the invariant depends on the texts
-  (F31: any parsed text is adopted) and on the converters being inverse to the generators
-  (`C16_FullStatement_refuted`).  It is decidable per run (`genInvB`/`srcOKB` on `Out.inst`, which the harness
+  (F31: any parsed text is adopted), on the converters being inverse to the generators
+  (`C16_FullStatement_refuted`), and on `derive_sources` marking what it re-creates
+  (`C16_derive_param_writable_breaks_inv`).  It is decidable per run (`genInvB`/`srcOKB` on `Out.inst`, which the harness
   evaluates for every real call); it is a theorem for generator-free material (`…_inv_genfree`).
 * `GReach`/`C16_reachable_inv` (§4, building blocks) are kept; `GReachW`/`C16_reachable_inv_whole` supersede them. -/
 
